@@ -89,14 +89,21 @@ func vC16HasError(body string) bool {
 	return false
 }
 
-func TestVerifC16KFExecution(t *testing.T) {
-	st := verifkit.For("C16", "TestVerifC16KFExecution", "directed, execution level: real meta service + data node with HTTP auth; user u1 (READ on db0 only) sends each known-finding statement; the response is searched for content of db2 (no grant); one case per statement")
-	defer st.Flush()
+// vC16ExecBed starts a real single-server meta service and one real data node with HTTP authentication:
+// databases db0 (one public series) and db2 (three "secret" series), administrator adm/admpw, user u1/u1pw with
+// READ on db0 only. It returns the node's HTTP address, db2's default retention policy and a shutdown function.
+func vC16ExecBed() (addr string, rp string, shutdown func()) {
+	var cleanup []func()
+	shutdown = func() {
+		for i := len(cleanup) - 1; i >= 0; i-- {
+			cleanup[i]()
+		}
+	}
 	dir, err := os.MkdirTemp("", "c16exec")
 	if err != nil {
 		vC16ExecInconclusive(err.Error())
 	}
-	defer os.RemoveAll(dir)
+	cleanup = append(cleanup, func() { os.RemoveAll(dir) })
 
 	// meta service
 	mc := meta.NewConfig()
@@ -117,7 +124,7 @@ func TestVerifC16KFExecution(t *testing.T) {
 	if err := ms.Open(); err != nil {
 		vC16ExecInconclusive("meta service: " + err.Error())
 	}
-	defer ms.Close()
+	cleanup = append(cleanup, func() { ms.Close() })
 
 	// data node with authentication
 	c := run.NewConfig()
@@ -149,7 +156,7 @@ func TestVerifC16KFExecution(t *testing.T) {
 	if err := s.Open(); err != nil {
 		vC16ExecInconclusive("data node open: " + err.Error())
 	}
-	defer s.Close()
+	cleanup = append(cleanup, func() { s.Close() })
 	s.MetaClient.SetMetaServers([]string{mc.HTTPBindAddress})
 	if _, err := s.MetaClient.CreateDataNode(s.HTTPAddr(), s.TCPAddr()); err != nil {
 		vC16ExecInconclusive("CreateDataNode: " + err.Error())
@@ -176,7 +183,7 @@ func TestVerifC16KFExecution(t *testing.T) {
 		}
 		time.Sleep(10 * time.Millisecond)
 	}
-	rp := mcli.Database("db2").DefaultRetentionPolicy
+	rp = mcli.Database("db2").DefaultRetentionPolicy
 	if rp == "" {
 		vC16ExecInconclusive("db2 has no default retention policy")
 	}
@@ -192,7 +199,15 @@ func TestVerifC16KFExecution(t *testing.T) {
 	if err := s.PointsWriter.WritePointsPrivileged("db0", mcli.Database("db0").DefaultRetentionPolicy, models.ConsistencyLevelAll, pub); err != nil {
 		vC16ExecInconclusive("write db0: " + err.Error())
 	}
-	addr := s.HTTPAddr()
+	addr = s.HTTPAddr()
+	return addr, rp, shutdown
+}
+
+func TestVerifC16KFExecution(t *testing.T) {
+	st := verifkit.For("C16", "TestVerifC16KFExecution", "directed, execution level: real meta service + data node with HTTP auth; user u1 (READ on db0 only) sends each known-finding statement; the response is searched for content of db2 (no grant); one case per statement")
+	defer st.Flush()
+	addr, rp, shutdown := vC16ExecBed()
+	defer shutdown()
 
 	// sanity of the bed: u1 cannot read db2 directly, and can read db0
 	if code, body := vC16Query(addr, "u1", "u1pw", "db0", "SELECT * FROM db2.."+"secretm", "GET"); code != http.StatusForbidden {
